@@ -322,6 +322,40 @@ func runCursorResume(c *fw.Case, prop string) {
 			}
 		}
 	}
+	// the cursor of the LAST block before the stop block leaves an empty range: the server must refuse it (it does so for a
+	// plain request whose start equals its stop), not answer with an empty success
+	if len(data) > 0 && data[len(data)-1].Num+1 == base.Stop {
+		rq := base
+		rq.Cursor = data[len(data)-1].Cursor
+		rr := s.cl.Run(rq)
+		c.Count("resumptions_from_the_last_block_before_stop", 1)
+		if rr.Err == nil && !rr.Stuck {
+			c.Violation(prop+"/cursor-resume/empty-range-accepted", fmt.Sprintf("request resumed from the cursor of block %d with stop block %d (nothing left to stream) was answered with a success and %d data messages instead of the 'start block and stop block are the same' error", data[len(data)-1].Num, base.Stop, len(rr.Data())), s.witness(map[string]any{"base_request": base}))
+			return
+		}
+	}
+	// a resumption is resolved from its cursor: the start_block_num left over in the request (here: equal to the stop block)
+	// must not make the server refuse it
+	if len(data) > 2 {
+		d := data[len(data)/2]
+		rq := base
+		rq.Cursor = d.Cursor
+		rq.Start = int64(base.Stop)
+		if pl, err := s.cl.PlanFor(rq); err == nil && !pl.KnownHangShape() {
+			rr := s.cl.Run(rq)
+			c.Count("resumptions_with_leftover_start_equal_to_stop", 1)
+			if rr.Err != nil && !rr.Stuck {
+				c.Violation(prop+"/cursor-resume/valid-resumption-refused/"+fw.NormalizeMsg(rr.Err.Error()), fmt.Sprintf("request resumed from the cursor of block %d (stop block %d) was refused because of its left-over start_block_num %d: %v", d.Num, base.Stop, rq.Start, rr.Err), s.witness(map[string]any{"base_request": base}))
+				return
+			}
+			if rr.Err == nil {
+				if sess := rr.Session(); sess == nil || sess.ResolvedStartBlock != d.Num+1 {
+					c.Violation(prop+"/cursor-resume/wrong-start", fmt.Sprintf("cursor of block %d with a left-over start_block_num resolved to %v, expected %d", d.Num, sess, d.Num+1), s.witness(map[string]any{"base_request": base}))
+					return
+				}
+			}
+		}
+	}
 	if c.WantSample() {
 		c.Sample(s.witness(map[string]any{"base_request": base, "kind": "cursor-resume", "delivered_blocks": len(data)}))
 	}
